@@ -207,6 +207,9 @@ pub fn one_history(cfg: &Cfg, r: &mut Report, rt: &tokio::runtime::Runtime, rng:
     let n_sessions = if rng.chance(1, 4) { 8 + rng.usize(9) } else { 2 + rng.usize(5) };
     let n_tasks = rng.usize(3);
     let phases = if rng.chance(1, 3) { 2 } else { 1 };
+    // one history in five: the first task's command exits at once while a descendant keeps the pipes and writes later
+    let late_writer_history = rng.chance(1, 5);
+    let n_tasks = if late_writer_history { n_tasks.max(1) } else { n_tasks };
 
     let t_hist = std::time::Instant::now();
     let dbg = std::env::var("RV_DEBUG").is_ok();
@@ -285,6 +288,8 @@ pub fn one_history(cfg: &Cfg, r: &mut Report, rt: &tokio::runtime::Runtime, rng:
         }
         let app2 = app.clone();
         let n_tasks_now = n_tasks;
+        let late_writer = late_writer_history && phase == 0;
+        let late_t0 = std::time::Instant::now();
         let phase_tag = phase;
         let got: Vec<Watched> = rt.block_on(async move {
             let mut joins: Vec<tokio::task::JoinHandle<Option<Watched>>> = Vec::new();
@@ -368,9 +373,12 @@ pub fn one_history(cfg: &Cfg, r: &mut Report, rt: &tokio::runtime::Runtime, rng:
             for i in 0..n_tasks_now {
                 let app = app2.clone();
                 joins.push(tokio::spawn(async move {
-                    let cmd = match i % 3 {
-                        0 => format!("for k in 1 2 3; do echo o{phase_tag}{i}$k; echo e{phase_tag}{i}$k 1>&2; done"),
-                        1 => "printf 'é🙂\\n'; exit 3".to_string(),
+                    let cmd = match (late_writer && i == 0, i % 3) {
+                        // the command exits at once; a descendant keeps both pipes and writes ~1.9 s later (the task's
+                        // stream, log and snapshot must still agree once it is gone)
+                        (true, _) => format!("(sleep 1.9; echo late{phase_tag}; echo elate{phase_tag} 1>&2) & echo first{phase_tag}"),
+                        (_, 0) => format!("for k in 1 2 3; do echo o{phase_tag}{i}$k; echo e{phase_tag}{i}$k 1>&2; done"),
+                        (_, 1) => "printf 'é🙂\\n'; exit 3".to_string(),
                         _ => "head -c 20000 /dev/zero | tr '\\0' 'a'".to_string(),
                     };
                     let (st, v) = app.json("POST", "/tasks", Some(&json!({"tool":"bash","args":{"command": cmd},"title": format!("t{i}")}))).await;
@@ -401,6 +409,14 @@ pub fn one_history(cfg: &Cfg, r: &mut Report, rt: &tokio::runtime::Runtime, rng:
             let _ = h.join();
         }
         mark!("actors joined");
+        if late_writer && n_tasks_now > 0 {
+            // the descendant of the late-writer task is gone ~1.9 s after the spawn; judge the state after that
+            let spent = late_t0.elapsed();
+            if spent < Duration::from_millis(2600) {
+                std::thread::sleep(Duration::from_millis(2600) - spent);
+            }
+            r.count("b_tasks_with_a_descendant_writing_after_the_command_exited", 1);
+        }
         {
             let extra = new_conts.lock().unwrap().clone();
             for c in extra {
